@@ -589,10 +589,7 @@ Section ReaderInv.
   Hypothesis Hsep : last_is_sep (c_root C) = false.
   Notation root := (c_root C).
 
-  Record PathInv (r : rstate) : Prop := mkPI {
-    pi_pfw : forall wd p, In (wd, p) (pfw r) -> rooted root p;
-    pi_wfp : forall p wd, In (p, wd) (wfp r) -> rooted root p;
-    pi_mvf : forall c p, In (c, p) (mvf r) -> rooted root p }.
+  Notation PathInv := (path_inv (c_root C)).
 
   Lemma pathinv_init : PathInv rinit0.
   Proof. constructor; intros ? ? []. Qed.
@@ -1073,7 +1070,7 @@ Section PipeInv.
   Record PInv (s : pstate) : Prop := mkPInv {
     pv_fs : fs_names_ok (w_fs (p_world s));
     pv_q : kqueue_ok (p_k s);
-    pv_r : PathInv (pc_reader P) (p_r s);
+    pv_r : path_inv root (p_r s);
     pv_tbl : forall i x, In (i, x) (p_tbl s) -> raw_ok root x;
     pv_out : forall e, In e (p_out s) -> out_ok e }.
 
